@@ -9,7 +9,7 @@ import random
 from .. import corpus, driver
 from ..btext import lines_of, tokenize, untokenize
 from ..driver import ShardResult, h64
-from ..gen import Gen
+from ..gen import Gen, GenCalls, emit_with_procs
 from ..lang import REL, emit_program, number_statements
 from ..worker import Worker, outcome
 
@@ -73,6 +73,8 @@ class Rewriter:
             if k != "for":
                 return False
             st = s.get("step")
+            while st is not None and st[0] in ("un", "par"):
+                st = st[2] if st[0] == "un" else st[1]
             if st is not None and not (st[0] == "lit" or (st[0] == "var" and st[1].startswith("ST"))):
                 self.skipped += 1
                 return False
@@ -196,6 +198,24 @@ def rewrite(prog_main, rule, chooser):
     return out, rw.applied
 
 
+def count_sites_prog(prog, rule):
+    rw = Rewriter(rule, lambda i: False)
+    rw.rewrite_list(copy.deepcopy(prog["main"]))
+    for p in prog["procs"]:
+        rw.rewrite_list(copy.deepcopy(p["body"]))
+    return rw.site, rw.skipped
+
+
+def rewrite_prog(prog, rule, chooser):
+    """Rewrites the main module and every procedure body (site numbers run through the whole program)."""
+    rw = Rewriter(rule, chooser)
+    new = copy.deepcopy(prog)
+    new["main"] = rw.rewrite_list(new["main"])
+    for p in new["procs"]:
+        p["body"] = rw.rewrite_list(p["body"])
+    return new, rw.applied
+
+
 def text_rewrites(rng, src):
     """Conservative text-level rewrites for corpus programs. Returns list of (rule, text)."""
     out = []
@@ -315,13 +335,21 @@ def shard(ctx):
             if v is not None:
                 r.fail("C02:%s:%s" % (rule, v[0]), "%s: %s | original:\n%s\n| rewritten:\n%s" % (rule, v[1], src[:500], tsrc[:500]), {"rule": rule, "src": src, "rsrc": tsrc})
     for idx in range(n):
-        g = Gen(rng, max_depth=rng.choice([2, 3, 4, 5]), size=rng.choice([6, 10, 14]), errors=0.1)
-        prog = g.program()
+        with_procs = rng.random() < 0.3
+        if with_procs:
+            # the constructs inside SUB / FUNCTION bodies (with EXIT SUB / EXIT FUNCTION leaving them), called from expressions
+            g = GenCalls(rng, max_depth=rng.choice([2, 3]), size=rng.choice([4, 7]), errors=0.05)
+            prog = g.program()
+            src, _ = emit_with_procs(prog)
+        else:
+            g = Gen(rng, max_depth=rng.choice([2, 3, 4, 5]), size=rng.choice([6, 10, 14]), errors=0.1)
+            prog = g.program()
+            prog["procs"] = []
+            src, _ = emit_program(prog["main"])
         main = prog["main"]
-        src, _ = emit_program(main)
         rep_p = None
         for rule in RULES:
-            sites, skipped = count_sites(main, rule)
+            sites, skipped = count_sites_prog(prog, rule)
             if skipped:
                 r.count(rule, skipped, group="sites_skipped_as_not_applicable")
             if sites == 0:
@@ -332,11 +360,14 @@ def shard(ctx):
             for k in ks[:ctx.params["sites_per_rule"]]:
                 choices.append(("site%d" % k, (lambda kk: (lambda i: i == kk))(k)))
             for cname, chooser in choices:
-                new_main, applied = rewrite(main, rule, chooser)
+                new_prog, applied = rewrite_prog(prog, rule, chooser)
                 if not applied:
                     continue
-                number_statements(new_main)
-                rsrc, _ = emit_program(new_main)
+                if with_procs:
+                    rsrc, _ = emit_with_procs(new_prog)
+                else:
+                    number_statements(new_prog["main"])
+                    rsrc, _ = emit_program(new_prog["main"])
                 if rep_p is None:
                     rep_p = w.run(src, budget=400000)
                 rep_r = w.run(rsrc, budget=600000)
@@ -347,6 +378,7 @@ def shard(ctx):
                 r.evaluations += 1
                 r.count(rule, group="rules")
                 r.count("all_sites" if cname == "all" else "single_site", group="site_choice")
+                r.count("with_procedures" if with_procs else "main_module_only", group="program_kind")
                 bp = behaviour(rep_p)
                 r.count(str(bp[0][0]) if bp[0][0] != "error" else "error_%s" % bp[0][1], group="outcomes_of_originals")
                 if rep_p.get("run", {}).get("steps", 0) > 50:
